@@ -868,27 +868,35 @@ func (sc *segmentController[T, O]) create(ctx context.Context, start time.Time) 
 	// Anchor stdEnd to the aligned start before any bump so end stays on the
 	// global grid even when start is bumped past a legacy off-grid neighbor;
 	// subsequent segments then self-heal back to the grid.
-	alignedStart := options.SegmentInterval.Standard(start)
+	ts := start
+	alignedStart := options.SegmentInterval.Standard(ts)
 	stdEnd := options.SegmentInterval.NextTime(alignedStart)
 	start = alignedStart
-	// sc.lst is sorted ascending by start time with non-overlapping ranges;
-	// a single pass bumps start past every legacy segment that swallows it
-	// (each next segment.Start >= previous.End).
+	end := stdEnd
+	// No existing segment contains ts (checked above), so every one of them
+	// lies entirely before or entirely after it. Bump start past the latest
+	// legacy segment that ends at or before ts and cap end at the earliest one
+	// that starts after ts: the new segment then always contains ts and never
+	// overlaps a neighbor, even when legacy segments leave a gap inside the
+	// grid bucket (bumping relative to the aligned start instead would pick
+	// the first gap of the bucket, which need not contain ts).
 	var next *segment[T, O]
 	for _, s := range sc.lst {
-		if s.Contains(start.UnixNano()) {
-			start = s.End
+		if !s.End.After(ts) {
+			if s.End.After(start) {
+				start = s.End
+			}
 			continue
 		}
-		if next == nil && s.Start.After(start) {
+		if s.Start.Before(end) {
+			end = s.Start
 			next = s
 		}
 	}
-	var end time.Time
-	if next != nil && next.Start.Before(stdEnd) {
+	if next != nil {
 		// `next` starts inside the current grid bucket - a legacy off-grid
-		// segment whose TTL hasn't elapsed. Cap end at next.Start to avoid
-		// overlap; surfacing this at Info level lets operators see the
+		// segment whose TTL hasn't elapsed. end is capped at next.Start to
+		// avoid overlap; surfacing this at Info level lets operators see the
 		// abnormal span until the legacy neighbor ages out.
 		sc.l.Info().
 			Stringer("alignedStart", alignedStart).
@@ -896,9 +904,6 @@ func (sc *segmentController[T, O]) create(ctx context.Context, start time.Time) 
 			Stringer("nextStart", next.Start).
 			Stringer("stdEnd", stdEnd).
 			Msg("new segment span is shorter than configured SegmentInterval due to an unaligned legacy neighbor")
-		end = next.Start
-	} else {
-		end = stdEnd
 	}
 	segPath := path.Join(sc.location, fmt.Sprintf(segTemplate, sc.format(start)))
 	sc.lfs.MkdirPanicIfExist(segPath, DirPerm)
